@@ -1308,3 +1308,26 @@ M("j6-quiet-rev-collect", "C13", "quiet", "src/compile.rs",
   """        // Here the tag bit is 1
         let tag_pos = join_ty_size;
         v.insert(tag_pos, 1);""", "behaviour-preserving: tag position through a local")
+
+# ---------------------------------------------------------------- C14 E8
+M("e8-outer-scope-not-muxed", "C14", "fire E8", "src/circuit.rs",
+  """        for (a, b) in a.0.iter().zip(b.0.iter()) {
+            muxed.push();""",
+  """        for (depth, (a, b)) in a.0.iter().zip(b.0.iter()).enumerate() {
+            if depth == 0 {
+                muxed.0.push(a.clone());
+                continue;
+            }
+            muxed.push();""", "seed C14-d: the outermost scope (mut parameters of main) is taken from the first environment")
+M("e8-outer-scope-rebound-unmuxed", "C14", "fire E8", "src/circuit.rs",
+  """                let binding_b = b.get(identifier).unwrap();
+                if binding_a.len() != binding_b.len() {""",
+  """                let binding_b = b.get(identifier).unwrap();
+                if muxed.0.len() == 1 {
+                    muxed.let_in_current_scope(identifier.clone(), binding_a.clone());
+                    continue;
+                }
+                if binding_a.len() != binding_b.len() {""", "same idea through the Env API: bindings of the outermost scope are copied from a")
+M("e8-mux-operands-swapped", "C14", "fire E8", "src/circuit.rs",
+  """                    binding[i] = self.push_mux(condition, if_true, if_false);""",
+  """                    binding[i] = self.push_mux(condition, if_false, if_true);""", "merged environment takes b when the condition holds")
